@@ -16,6 +16,10 @@ From MV Require Import Dir.DirModel.
 From MV Require Import Dir.DirProofs.
 From MV Require Import Dir.Lines.
 From MV Require Import Dir.LinesProofs.
+From MV Require Import Gen.LinesSrc.
+From MV Require Import Dir.PyRuntime.
+From MV Require Import Gen.DirSrc.
+From MV Require Import Dir.DirSrcProofs.
 From MV Require Import Opt.OptModel.
 From MV Require Import Opt.OptComments.
 From MV Require Import Dir.DirTokenizer.
@@ -46,6 +50,30 @@ Theorem C04_lines_nested_c07 :
   document_lines c07_tokenize yaml_load sg first_line doc = Ok (lift (locate_seq 1 doc)).
 Proof. exact lines_nested_c07. Qed.
 Print Assumptions C04_lines_nested_c07.
+
+(* Source-translation tie.  (a) Every line computed by [document_lines] goes through the expressions REGENERATED from
+   base.py / mocking.py (Gen/LinesSrc.v): token_line, the two map updates, content_offset, the lineno of nested_parse,
+   the include lineno / start-after advance, the warning line.  Their normal forms - what the theorems above rely on: *)
+Theorem C04_arithmetic_src :
+  (forall base idx, node_line base idx = (Z.of_nat idx + base + 1)%Z) /\
+  (forall map0 map1, token_line_src map0 map1 = map0) /\
+  (forall map0 map1, render_tokens_map0_src map0 map1 = (map0 + 1)%Z) /\
+  (forall map0 map1 lineno, nested_map0_src map0 map1 lineno = (map0 + lineno)%Z) /\
+  (forall body_offset prepended, content_offset_src body_offset prepended = (body_offset - prepended)%Z) /\
+  (forall lineno input_offset, nested_parse_lineno_src lineno input_offset = (lineno + input_offset)%Z) /\
+  Z.to_nat hack_prepended_src = 1%nat /\
+  (forall startline, include_lineno_src startline = (startline + 1)%Z) /\
+  (forall lineno position, warning_line_src lineno position = match lineno with Some l => l | None => position end).
+Proof. exact arithmetic_src. Qed.
+Print Assumptions C04_arithmetic_src.
+
+(* (b) the directive splitter the line model runs is the one regenerated from parsers/directives.py (Gen/DirSrc.v) *)
+Theorem C04_splitter_src :
+  forall tokenize yaml_load sg first_line content line validate additional,
+  parse_directive_text_src tokenize yaml_load sg first_line content line validate additional =
+  parse_directive_text tokenize yaml_load sg first_line content line validate additional.
+Proof. exact parse_directive_text_src_eq. Qed.
+Print Assumptions C04_splitter_src.
 
 (* the same for a block anywhere inside a nested render: [base] is the lineno accumulated so far, [idx] the
    token.map[0] the parser reports (the inductive statement behind C04_lines_nested) *)
